@@ -13,9 +13,10 @@ class References:
       An array, which elements are 3-tuples
       (from oriented segment, to oriented segment, cigar)
     """
-    if len(self.segment_names) == 1:
-      return []
     has_undef_overlaps = self._undef_overlaps()
+    if len(self.segment_names) == 1 and \
+        (has_undef_overlaps or not self.is_circular()):
+      return []
     if not has_undef_overlaps:
       # also at validation level 0: the overlaps are indexed by junction
       self._validate_lists_size()
